@@ -14,7 +14,10 @@
 //	    epoch events, GC passes and sleeps; it ends with puts that are still in
 //	    the write-cache and garbage marks nobody collected yet.
 //	phase 2: SetMode(READ_ONLY | DEGRADED_READ_ONLY); baseline = content hashes of
-//	    the whole shard directory (blob/, meta, wc/) taken right AFTER the switch;
+//	    the whole shard directory (blob/, meta, wc/) taken right AFTER the switch
+//	    (half of the write-cache cases switch while a background flush is parked
+//	    inside a slow blob write, see slowStore: if SetMode returns before that
+//	    write finished, the baseline is what is on disk at that moment);
 //	    then random modifying requests through every exported modifying method of
 //	    *shard.Shard (enumerated by reflection, package shmodes), epoch events
 //	    (through the real notification channel and synchronously), explicit GC
@@ -46,11 +49,13 @@ import (
 	"strings"
 	"sync"
 	"sync/atomic"
+	"syscall"
 	"testing"
 	"testing/synctest"
 	"time"
 
 	"github.com/nspcc-dev/bbolt"
+	"github.com/nspcc-dev/neofs-node/pkg/local_object_storage/blobstor/common"
 	"github.com/nspcc-dev/neofs-node/pkg/local_object_storage/blobstor/fstree"
 	meta "github.com/nspcc-dev/neofs-node/pkg/local_object_storage/metabase"
 	"github.com/nspcc-dev/neofs-node/pkg/local_object_storage/shard"
@@ -288,8 +293,17 @@ func runCase(t *rapid.T, rec *ev.Recorder) {
 	// files index members by object ID only (HARNESS.md pitfall); it also keeps
 	// blob writes free of batching timers, which cannot fire while the case
 	// goroutine waits on a mutex (synctest).
-	sh, err = stor.OpenShard(stor.ShardCfg{Dir: dir, Epoch: ep, WriteCache: withWC, Payments: pay,
-		FSTOpts:    []fstree.Option{fstree.WithCombinedCountLimit(1), fstree.WithNoSync(true)},
+	fstOpts := []fstree.Option{fstree.WithCombinedCountLimit(1), fstree.WithNoSync(true)}
+	// with a write-cache the blobstor is wrapped so that a background flush can be
+	// parked inside its blob write at the moment of the switch (see slowStore)
+	var slow *slowStore
+	var blob common.Storage
+	if withWC {
+		slow = &slowStore{Storage: stor.FSTree(stor.BlobDir(dir), fstOpts...), raw: stor.FSTree(stor.BlobDir(dir), fstOpts...)}
+		blob = slow
+	}
+	sh, err = stor.OpenShard(stor.ShardCfg{Dir: dir, Epoch: ep, WriteCache: withWC, Payments: pay, Blob: blob,
+		FSTOpts:    fstOpts,
 		WCOpts:     []writecache.Option{writecache.WithNoSync(true), writecache.WithFlushWorkersCount(4)},
 		MetaOpts:   []meta.Option{meta.WithBoltDBOptions(noSyncBolt())},
 		GCInterval: time.Second, Extra: []shard.Option{shard.WithExpiredObjectsCallback(expiredCb)}})
@@ -297,6 +311,16 @@ func runCase(t *rapid.T, rec *ev.Recorder) {
 		ev.Inconclusive("open shard: %v", err)
 	}
 	defer sh.Close()
+	if slow != nil {
+		if err := slow.raw.Open(false); err != nil {
+			ev.Inconclusive("open raw blob handle: %v", err)
+		}
+		if err := slow.raw.Init(common.ID{}); err != nil {
+			ev.Inconclusive("init raw blob handle: %v", err)
+		}
+		defer slow.raw.Close()
+		defer slow.release()
+	}
 
 	epoch := uint64(0)
 	newEpoch := func(viaChan bool) {
@@ -379,27 +403,95 @@ func runCase(t *rapid.T, rec *ev.Recorder) {
 	settle()
 
 	// ---------- the switch ----------
+	// Half of the write-cache cases switch while a background flush is parked
+	// inside its (slow) blob write.
+	parked := 0
+	if withWC && rapid.Bool().Draw(t, "flush-in-flight") {
+		labels = append(labels, "gated")
+		if wcObjects(dir) == 0 {
+			s := canon(regGen.Draw(t, "gate-put"))
+			err := put(s, false)
+			logf("rw put %s -> %v", s, err != nil)
+		}
+		slow.arm()
+		time.Sleep(1100 * time.Millisecond) // flush scheduler tick: workers take the objects and park in Put/PutBatch
+		settle()
+		if parked = slow.parkedWrites(); parked == 0 {
+			slow.release()
+		}
+		logf("gate armed: %d background blob write(s) in flight", parked)
+	}
 	r0 := shmodes.Observe(sh, allAddrs)
 	cacheAtSwitch := wcObjects(dir)
-	if err := sh.SetMode(target); err != nil {
-		fail("SetMode(%s) on a healthy shard failed: %v", target, err)
+	var baseline []snap.Entry
+	snapshot := func() []snap.Entry {
+		es, err := tree(dir)
+		if err != nil {
+			ev.Inconclusive("snapshot: %v", err)
+		}
+		return es
+	}
+	if parked == 0 {
+		if err := sh.SetMode(target); err != nil {
+			fail("SetMode(%s) on a healthy shard failed: %v", target, err)
+		}
+		baseline = snapshot()
+	} else {
+		labels = append(labels, "flush-in-flight-at-switch")
+		slow.switching()
+		done := make(chan error, 1)
+		go func() { done <- sh.SetMode(target) }()
+		// The write-cache lets a mode change wait for in-flight flushes, so on the
+		// unchanged tree SetMode cannot return before the gate is released. It is
+		// given real time (not fake time: the SetMode goroutine waits on a mutex,
+		// which is not a durable block, so the fake clock cannot advance and
+		// synctest.Wait would never return) to return nevertheless. The bound only
+		// limits how often a premature return is observed, never what is accepted.
+		returned := false
+		var serr error
+		for i := 0; i < 100 && !returned; i++ {
+			select {
+			case serr = <-done:
+				returned = true
+			default:
+				ts := syscall.Timespec{Nsec: 500_000}
+				_ = syscall.Nanosleep(&ts, nil)
+			}
+		}
+		if returned {
+			// read-only is reported while a background flush is still inside its
+			// blob write: what is on disk NOW must stay
+			labels = append(labels, "setmode-returned-with-flush-in-flight")
+			logf("SetMode returned while %d background blob write(s) were still in flight", parked)
+			baseline = snapshot()
+			slow.release()
+			settle()
+			if d := snap.Diff(baseline, snapshot()); d != "" {
+				fail("persisted state changed after %s mode was reported (a background flush that was in flight at the switch completed afterwards):\n%s", target, d)
+			}
+		} else {
+			slow.release()
+			serr = <-done
+			baseline = snapshot()
+		}
+		if serr != nil {
+			fail("SetMode(%s) on a healthy shard failed: %v", target, serr)
+		}
 	}
 	phase2.Store(true)
 	logf("SETMODE %s (cache objects at switch: %d)", target, cacheAtSwitch)
 	if cacheAtSwitch > 0 {
 		labels = append(labels, "cache-nonempty-at-switch")
 	}
-	baseline, err := tree(dir)
-	if err != nil {
-		ev.Inconclusive("snapshot: %v", err)
-	}
 	e0 := epoch
 	r1 := shmodes.Observe(sh, allAddrs)
-	if target == mode.ReadOnly {
+	if target == mode.ReadOnly && parked == 0 {
+		// (with a flush in flight r0 was observed in the middle of it: an object
+		// the GC removed meanwhile is legitimately re-written by that flush)
 		if d := shmodes.DiffReads(r0, r1); len(d) > 0 {
 			fail("reads changed by the switch to READ_ONLY: %v", d)
 		}
-	} else {
+	} else if target != mode.ReadOnly {
 		for i := range allAddrs {
 			k := fmt.Sprintf("get %d", i)
 			if strings.HasPrefix(r0[k], "ok:") && r1[k] != r0[k] {
